@@ -81,7 +81,7 @@ Proof.
   - destruct (mark_slot_ok (c_rec c) _ (sel (negb (sl_side sl)) (nev (c_st c))) sl A B) as [_ [sl' (Hs & Hbd & Hr & _)]].
     destruct (slot_plan_full c i sl _ sl' _ Hb Ei Hs Hbd Hr) as [y (R1 & _)]. simpl plan_of.
     change [MSlot i SMark; MSlot i SRow] with (map (MSlot i) [SMark; SRow]). congruence.
-  - destruct (sync_slot_ok (c_rec c) _ (sel (negb (sl_side sl)) (nev (c_st c))) sl A B) as [_ [sl' [np' (Hs & Hbd & Hr & _)]]].
+  - destruct (sync_slot_ok (c_rec c) _ (sel (negb (sl_side sl)) (nev (c_st c))) sl A B (knows_peers (c_st c) sl)) as [_ [sl' [np' (Hs & Hbd & Hr & _)]]].
     destruct (slot_plan_full c i sl _ sl' np' Hb Ei Hs Hbd Hr) as [y (R1 & _)]. simpl plan_of. unfold plan_sync. rewrite Ei. congruence.
 Qed.
 
@@ -105,7 +105,7 @@ Proof.
     destruct (adopt && _); reflexivity. }
   destruct (nth_error (sl_peers sl) (e_ref e)) as [p|]; [|reflexivity].
   destruct (opt_eqb (s_spath (e_org e)) _); destruct (opt_eqb (s_shash (e_org e)) _); try reflexivity;
-    destruct (os_kind (o_now (sl_org sl))); reflexivity.
+    destruct (_ && kind_eqb _ _); try reflexivity; destruct (os_kind (o_now (sl_org sl))); reflexivity.
 Qed.
 
 Lemma plan_marks_rows s c : forall l i, all_rows (writes_of (plan_marks s c l i)) = true.
@@ -157,13 +157,22 @@ Definition witness_user_revert_after_crash : list elabel :=
   [EUser (UNew false 1%N (KFile 1%N)); EStep (KMark 0); EStep (KEnd false); EStep (KSync 0);
    EUser (UWrite 0 2%N); EStep (KMark 0); EStep (KEnd false); ECrash (KSync 0) 2; EUser (UWrite 0 1%N)].
 
+Definition on_run (g : bool) (ls : list elabel) (f : cfg -> bool) : bool :=
+  match erun g cfg0 ls with Some c => f c | None => false end.
+Lemma on_run_true g ls f : on_run g ls f = true -> exists c, erun g cfg0 ls = Some c /\ f c = true.
+Proof. unfold on_run. destruct (erun g cfg0 ls) as [c|]; [eauto|discriminate]. Qed.
+
 Lemma witness1_conflicted :
   exists c, erun false cfg0 witness_user_write_after_crash = Some c /\ has_conflicted (recover (c_st c)) = true.
-Proof. eexists. split; [vm_compute; reflexivity|vm_compute; reflexivity]. Qed.
+Proof. apply (on_run_true false _ (fun c => has_conflicted (recover (c_st c)))). vm_compute. reflexivity. Qed.
 
 Lemma witness2_not_settled :
   exists c, erun false cfg0 witness_user_revert_after_crash = Some c /\ settled (recover (c_st c)) = false.
-Proof. eexists. split; [vm_compute; reflexivity|vm_compute; reflexivity]. Qed.
+Proof.
+  destruct (on_run_true false witness_user_revert_after_crash (fun c => negb (settled (recover (c_st c))))) as [c [H1 H2]].
+  - vm_compute. reflexivity.
+  - exists c. split; [assumption|]. now apply negb_true_iff.
+Qed.
 
 Theorem half_recorded_recoverable_refuted : ~ half_recorded_recoverable_full.
 Proof.
@@ -178,8 +187,8 @@ Theorem recoverable_without_adoption_refuted : ~ recoverable_without_adoption.
 Proof.
   intros H.
   assert (E : exists c, erun true cfg0 [EUser (UNew false 1%N (KFile 1%N)); EStep (KMark 0); EStep (KEnd false); ECrash (KSync 0) 2] = Some c /\
-                        has_conflicted (recover_with false (c_st c)) = true)
-    by (eexists; split; vm_compute; reflexivity).
+                        has_conflicted (recover_with false (c_st c)) = true).
+  { apply (on_run_true true _ (fun c => has_conflicted (recover_with false (c_st c)))). vm_compute. reflexivity. }
   destruct E as [c [Hr Hc]]. rewrite (H _ _ Hr) in Hc. discriminate.
 Qed.
 
